@@ -109,8 +109,42 @@ class CountingLock:
         self.depth -= 1
 
 
+def dynamic_calls():
+    """Per public operation: calls that together take every branch of the method and of what it calls
+    (chunk smaller / larger than the capacity; invalidation before, at the lower bound of, inside and beyond the
+    window; resize smaller / same / larger; reads inside, overlapping and outside the window; defaults)."""
+    return {
+        'append_data': [lambda b, x: b.append_data(x(3)), lambda b, x: b.append_data(x(12)),
+                        lambda b, x: b.append_data(x(8)), lambda b, x: b.append_data(x(1))],
+        'invalidate': [lambda b, x: b.invalidate(0.5), lambda b, x: b.invalidate(5.0), lambda b, x: b.invalidate(0.0),
+                       lambda b, x: b.invalidate(0.2), lambda b, x: b.invalidate(0.1), lambda b, x: b.invalidate(0.9)],
+        'invalidate_samples': [lambda b, x: b.invalidate_samples(7), lambda b, x: b.invalidate_samples(50),
+                               lambda b, x: b.invalidate_samples(0), lambda b, x: b.invalidate_samples(1),
+                               lambda b, x: b.invalidate_samples(2), lambda b, x: b.invalidate_samples(3),
+                               lambda b, x: b.invalidate_samples(9), lambda b, x: b.invalidate_samples(4)],
+        'resize': [lambda b, x: b.resize(1.6), lambda b, x: b.resize(0.8), lambda b, x: b.resize(0.3)],
+        'get_latest': [lambda b, x: b.get_latest(-0.4), lambda b, x: b.get_latest(-0.4, 0, -1.0),
+                       lambda b, x: b.get_latest(-0.4, -0.1), lambda b, x: b.get_latest(-3.0, 0, -1.0),
+                       lambda b, x: b.get_latest(-3.0)],
+        'get_range': [lambda b, x: b.get_range(), lambda b, x: b.get_range(0.5, 0.8), lambda b, x: b.get_range(0.5),
+                      lambda b, x: b.get_range(None, 0.7), lambda b, x: b.get_range(-1.0, 0.5),
+                      lambda b, x: b.get_range(0.5, 9.0)],
+        'get_range_filled': [lambda b, x: b.get_range_filled(0.2, 1.6, -1.0), lambda b, x: b.get_range_filled(0.5, 0.7, -1.0),
+                             lambda b, x: b.get_range_filled(-2.0, -1.0, -1.0), lambda b, x: b.get_range_filled(5.0, 6.0, -1.0),
+                             lambda b, x: b.get_range_filled(-1.0, 9.0, -1.0)],
+        'get_range_samples': [lambda b, x: b.get_range_samples(), lambda b, x: b.get_range_samples(5, 8),
+                              lambda b, x: b.get_range_samples(5), lambda b, x: b.get_range_samples(None, 7),
+                              lambda b, x: b.get_range_samples(0, 3), lambda b, x: b.get_range_samples(5, 99)],
+        'get_samples_lb': [lambda b, x: b.get_samples_lb()],
+        'get_samples_ub': [lambda b, x: b.get_samples_ub()],
+        'get_time_lb': [lambda b, x: b.get_time_lb()],
+        'get_time_ub': [lambda b, x: b.get_time_ub()],
+    }
+
+
 def dynamic_footprint(d, rng):
-    """{op: (min depth of any shared-field access, max number of outermost spans per call, calls)}"""
+    """{op: (min depth of any shared-field access, max number of outermost spans per call, calls)} over several
+    states of the real class (partly filled, exactly full, wrapped, resized, just invalidated; 1-D and 2 channels)."""
     from psiaudio.buffer import SignalBuffer
     fields = set(d['fields'])
     log = []
@@ -128,38 +162,105 @@ def dynamic_footprint(d, rng):
                 log.append(self.__dict__['_lock'].depth)
             object.__setattr__(self, name, v)
 
-    calls = {
-        'append_data': [lambda b: b.append_data(np.arange(3.0)), lambda b: b.append_data(np.arange(12.0))],
-        'invalidate': [lambda b: b.invalidate(0.5), lambda b: b.invalidate(5.0)],
-        'invalidate_samples': [lambda b: b.invalidate_samples(7), lambda b: b.invalidate_samples(50)],
-        'resize': [lambda b: b.resize(1.6)],
-        'get_latest': [lambda b: b.get_latest(-0.4), lambda b: b.get_latest(-0.4, 0, -1.0)],
-        'get_range': [lambda b: b.get_range(), lambda b: b.get_range(0.5, 0.8)],
-        'get_range_filled': [lambda b: b.get_range_filled(0.2, 1.6, -1.0)],
-        'get_range_samples': [lambda b: b.get_range_samples(), lambda b: b.get_range_samples(5, 8)],
-        'get_samples_lb': [lambda b: b.get_samples_lb()],
-        'get_samples_ub': [lambda b: b.get_samples_ub()],
-        'get_time_lb': [lambda b: b.get_time_lb()],
-        'get_time_ub': [lambda b: b.get_time_ub()],
-    }
+    def chunks(nch):
+        k = [0]
+
+        def x(n):
+            a = np.arange(k[0], k[0] + n, dtype='double')
+            k[0] += n
+            return a if nch is None else np.vstack([a + 1000 * c for c in range(nch)])
+        return x
+
+    # (n_channels, prefill chunks, operations applied before the call under observation)
+    states = [(None, [10], []), (None, [5], []), (None, [8], []), (2, [10], []), (2, [3], []),
+              (None, [10], [lambda b, x: b.resize(1.6)]), (None, [10], [lambda b, x: b.invalidate_samples(6)]),
+              (None, [], []), (1, [9], [lambda b, x: b.resize(0.5), lambda b, x: b.append_data(x(2))])]
+    calls = dynamic_calls()
     out = {}
     for op in PUBLIC_OPS:
         mind, spans, n = None, 0, 0
-        for f in calls[op]:
-            b = Probe(fs=10.0, size=0.8)
-            b.append_data(np.arange(10.0))
-            lock = CountingLock()
-            object.__setattr__(b, '_lock', lock)
-            del log[:]
-            try:
-                f(b)
-            except (IndexError, ValueError):
-                pass
-            n += 1
-            if log:
-                mind = min(log) if mind is None else min(mind, min(log))
-            spans = max(spans, lock.spans)
+        for nch, pre, setup in states:
+            for f in calls[op]:
+                x = chunks(nch)
+                b = Probe(fs=10.0, size=0.8, n_channels=nch)
+                try:
+                    for m in pre:
+                        b.append_data(x(m))
+                    for g in setup:
+                        g(b, x)
+                except (IndexError, ValueError):
+                    continue
+                lock = CountingLock()
+                object.__setattr__(b, '_lock', lock)
+                del log[:]
+                try:
+                    f(b, x)
+                except (IndexError, ValueError):
+                    pass
+                n += 1
+                if log:
+                    mind = min(log) if mind is None else min(mind, min(log))
+                spans = max(spans, lock.spans)
         out[op] = (mind, spans, n)
+    return out
+
+
+def real_class_problems(d):
+    """What the translator cannot see in the source but the model relies on: the lock of a real object is one
+    `threading.RLock`, the same object for the whole life of the buffer, and every method the table describes is
+    the plain function compiled from the lines the table was made from (not wrapped or replaced after the fact)."""
+    import threading
+    from psiaudio.buffer import SignalBuffer
+    import psiaudio.buffer as B
+    out = []
+    src = B.__file__[:-1] if B.__file__.endswith('.pyc') else B.__file__
+    if os.path.realpath(src) != os.path.realpath(d['path']):
+        out.append(f'psiaudio.buffer was imported from {src}, the table was made from {d["path"]}')
+    if SignalBuffer.__mro__[1:] != (object,):
+        out.append(f'SignalBuffer inherits from {SignalBuffer.__mro__[1:-1]}')
+    for hook in ('__getattr__', '__getattribute__', '__setattr__'):
+        if hook in SignalBuffer.__dict__:
+            out.append(f'SignalBuffer defines {hook}')
+    for name in d['names']:
+        f = SignalBuffer.__dict__.get(name)
+        if isinstance(f, property):
+            f = f.fget
+        code = getattr(f, '__code__', None)
+        if code is None or not isinstance(f, type(real_class_problems)):
+            out.append(f'SignalBuffer.{name} is not a plain function ({type(f).__name__})')
+        elif code.co_filename != B.__file__ or code.co_firstlineno != d['deflines'][name] or getattr(f, '__wrapped__', None):
+            out.append(f'SignalBuffer.{name} is not the function defined at line {d["deflines"][name]} of buffer.py')
+    extra = [k for k, v in SignalBuffer.__dict__.items()
+             if k not in d['names'] and not k.startswith('__') and (callable(v) or isinstance(v, (property, staticmethod, classmethod)))]
+    if extra:
+        out.append(f'SignalBuffer has callables the table does not describe: {sorted(extra)}')
+    rlock_type = type(threading.RLock())
+    for nch in (None, 2):
+        b = SignalBuffer(fs=10.0, size=0.8, n_channels=nch)
+        lock = b.__dict__.get('_lock')
+        if type(lock) is not rlock_type:
+            out.append(f'the lock of a new buffer is a {type(lock).__name__}, not a threading.RLock')
+            break
+        x = (lambda n: np.zeros(n)) if nch is None else (lambda n: np.zeros((2, n)))
+        b.append_data(x(10))
+        for op, fs in dynamic_calls().items():
+            for f in fs:
+                try:
+                    f(b, x)
+                except (IndexError, ValueError):
+                    pass
+                if b.__dict__.get('_lock') is not lock:
+                    out.append(f'{op} replaced the lock object of the buffer')
+                    return out
+        if not lock.acquire(blocking=False):
+            out.append('the lock is still held after the operations returned')
+        else:
+            lock.release()
+            try:
+                lock.release()
+                out.append('an operation left the lock acquired (recursion level > 0 after it returned)')
+            except RuntimeError:
+                pass
     return out
 
 
@@ -193,6 +294,31 @@ def targeted(all_sc, d, broken):
 
 def _first_error(log):
     return [l for l in log.split('\n') if 'error' in l.lower()][:6]
+
+
+def _explore_job(job):
+    i, sc, depth, each, opcode_funcs = job
+    return i, sched.explore(sc, max_preempt=depth, budget_s=each, opcode_funcs=opcode_funcs)
+
+
+def explore_many(scs, depth, each, budget, opcode_funcs=()):
+    """explore() on every scenario, in worker processes, in list order; stops at the first torn outcome (first in
+    list order among the scenarios finished so far) or when the time budget is used up."""
+    import multiprocessing as mp
+    t0 = time.time()
+    jobs = [(i, sc, depth, each, tuple(opcode_funcs)) for i, sc in enumerate(scs)]
+    results, torn = [], None
+    ctx = mp.get_context('fork')
+    with ctx.Pool(min(12, os.cpu_count() or 1)) as pool:
+        for i, res in pool.imap(_explore_job, jobs):
+            results.append((i, res))
+            if res['torn']:
+                torn = res['torn']
+                break
+            if time.time() - t0 > budget:
+                break
+        pool.terminate()
+    return {'results': results, 'torn': torn}
 
 
 def main(tier, seed, replay):
@@ -230,8 +356,15 @@ def main(tier, seed, replay):
             dyn = dynamic_footprint(d, rng)
             for op, (mind, spans, n) in dyn.items():
                 if verdict.get(op, (False,))[0] and not (mind is not None and mind >= 1 and spans == 1):
-                    infra.append(f'translator says {op} is atomic but the real method accessed shared fields at '
-                                 f'lock depth {mind} in {spans} outermost span(s)')
+                    # the table does not describe what the real method does: nothing is proved about this tree
+                    breaks.append(('footprint-vs-real-method', {
+                        'operation': op, 'detail': f'the table says {op} is atomic but the real method accessed the '
+                        f'shared fields at lock depth {mind} in {spans} outermost span(s)'}))
+                    if op not in nonatomic:
+                        nonatomic.append(op)
+            for msg in real_class_problems(d):
+                breaks.append(('lock-or-class-not-as-modelled', {'detail': msg}))
+                nonatomic = list(PUBLIC_OPS)
         except Exception as e:
             infra.append(f'translator validation crashed: {type(e).__name__}: {e}')
             traceback.print_exc()
@@ -265,52 +398,54 @@ def main(tier, seed, replay):
     else:
         breaks.append(('proof', {'modules': PROOF_MODULES, 'errors': _first_error(log),
                                  'non_atomic_operations': nonatomic}))
-    if nonatomic and proof_ok:
+    if d is not None and [n for n in nonatomic if not verdict.get(n, (False,))[0]] and proof_ok:
         infra.append(f'operations {nonatomic} are not atomic but the proof built')
 
     # ---- 4. schedule explorer ---------------------------------------------------
+    # Iterative deepening over the whole scenario list (first every scenario with one pre-emption, then two, then
+    # three), scenarios in parallel worker processes: breadth before depth, because what breaks is usually one
+    # operation in one region of the state, and one pre-emption at the right line shows it.
     broken = bool(breaks)
-    n_sc = 8 if tier == 'quick' else 40
-    all_sc = sched.scenarios(rng, n_sc if not broken else 40)
-    if broken and d is not None:
-        all_sc = targeted(all_sc, d, nonatomic)
-    budget = (12 if tier == 'quick' else 180) if not broken else (25 if tier == 'quick' else 300)
-    per = max(1.0, budget / len(all_sc))
+    if not broken:
+        all_sc = sched.scenarios(rng, 8 if tier == 'quick' else 60, sysn=40 if tier == 'quick' else None)
+        budget = 30 if tier == 'quick' else 240
+    else:
+        all_sc = sched.scenarios(rng, 40, sysn=None)
+        if d is not None:
+            all_sc = targeted(all_sc, d, nonatomic)
+        budget = 75 if tier == 'quick' else 400
     ts = time.time()
     runs = distinct = 0
     torn = None
-    explored = []
+    explored = {}
     try:
-        for sc in all_sc:
+        for depth, each in ((1, 12.0), (2, 4.0 if tier == 'quick' else 12.0), (3, 4.0 if tier == 'quick' else 12.0)):
             left = budget - (time.time() - ts)
-            if left <= 0:
+            if left <= 1:
                 break
-            r = sched.explore(sc, max_preempt=3, budget_s=min(per, left) if not broken else min(left, 8.0))
-            runs += r['runs']
-            distinct += r['distinct']
-            explored.append({'writer': sc['writer'], 'reader': sc['reader'], 'runs': r['runs'],
-                             'distinct_schedules': r['distinct']})
+            r = explore_many(all_sc, depth, each, left)
+            for i, res in r['results']:
+                e = explored.setdefault(i, {'writer': all_sc[i]['writer'], 'reader': all_sc[i]['reader'],
+                                            'prefill': all_sc[i]['prefill'], 'n_channels': all_sc[i]['n_channels'],
+                                            'runs': 0, 'distinct_schedules': 0, 'max_preempt': 0})
+                runs += res['runs'] - e['runs']
+                distinct += res['distinct'] - e['distinct_schedules']
+                e.update(runs=res['runs'], distinct_schedules=res['distinct'], max_preempt=depth)
             if r['torn']:
                 torn = r['torn']
                 break
         if broken and torn is None and d is not None and nonatomic:
-            # second pass: step the methods reachable from the non-atomic operations bytecode by bytecode
+            # last pass: step the methods reachable from the non-atomic operations bytecode by bytecode
             # (a compound read on one source line is invisible at line granularity)
             fine = sorted({n for n in d['names'] for b in nonatomic if b in d['names'] and uses(d, b, n)})
-            ts2 = time.time()
-            for sc in all_sc:
-                if time.time() - ts2 > budget:
-                    break
-                r = sched.explore(sc, max_preempt=2, budget_s=min(6.0, budget - (time.time() - ts2)),
-                                  opcode_funcs=fine)
-                runs += r['runs']
-                distinct += r['distinct']
-                if r['torn']:
-                    torn = r['torn']
-                    break
+            r = explore_many(all_sc, 2, 6.0, 25 if tier == 'quick' else 300, opcode_funcs=fine)
+            runs += sum(res['runs'] for _, res in r['results'])
+            distinct += sum(res['distinct'] for _, res in r['results'])
+            torn = r['torn']
     except Exception as e:
         infra.append(f'schedule explorer crashed: {type(e).__name__}: {e}')
         traceback.print_exc()
+    explored = [explored[i] for i in sorted(explored)]
 
     exit_code = 0
     if torn:
@@ -339,12 +474,16 @@ def main(tier, seed, replay):
         'rule': 'the model (lock footprint of every SignalBuffer method) is regenerated from the AST; atomicity of the '
                 '12 public operations is decided by the kernel on it; serialisability is proved for all schedules. '
                 'Schedules run on the real class (validation / failing-input search): two threads, line granularity, '
-                '<= 3 pre-emptions, outcome compared with all serial merges; distinct = distinct schedule strings',
+                '<= 3 pre-emptions (iterative deepening over fixed + systematic + random scenarios: every mutation in '
+                'every region of the window against every read form, partly filled / full / wrapped / multi-chunk '
+                'states, 1-D / 1 / 2 channels), outcome compared with all serial merges; distinct = distinct schedule '
+                'strings',
         'footprints': {n: {'atomic': v[0], 'inlined': v[1]} for n, v in verdict.items()},
         'dynamic_footprint': {k: {'min_lock_depth_of_accesses': v[0], 'outermost_spans': v[1], 'calls': v[2]}
                               for k, v in dyn.items()},
         'non_atomic_public_operations': nonatomic,
-        'scenarios': explored[:12], 'scenarios_run': len(explored), 'schedules_run': runs,
+        'scenarios': explored[:12] + explored[12::max(1, len(explored) // 12)], 'scenarios_run': len(explored),
+        'schedules_run': runs,
         'torn_read_found': bool(torn),
         'breaks': [b[0] for b in breaks], 'infrastructure_problems': infra,
         'exhaustive': False,
